@@ -19,7 +19,7 @@ def pub_fn(prog, owner, name):
 
 def reach_from(prog, entries):
     ids = [e.id if hasattr(e, "id") else e for e in entries if e is not None]
-    return [prog.fns[i] for i in prog.reach(ids) if not prog.fns[i].promoted]
+    return [prog.fns[i] for i in sorted(prog.reach(ids)) if not prog.fns[i].promoted]
 
 
 def call_sites(prog, fn, pred=None):
